@@ -170,7 +170,38 @@ def rule_ctor(model):
     stores = [n for n in own_nodes(fi.node) if isinstance(n, ast.Assign)
               and isinstance(n.targets[0], ast.Subscript)
               and norm(n.targets[0].value) == kw]
-    if not stores:
+    bulk = [n for n in own_nodes(fi.node) if isinstance(n, ast.Call)
+            and isinstance(n.func, ast.Attribute)
+            and norm(n.func.value) == kw
+            and n.func.attr in ('update', '__setitem__')]
+    for b in bulk:
+        arg = b.args[0] if b.args else None
+        conds = []
+        key = None
+        if isinstance(arg, (ast.DictComp, ast.GeneratorExp, ast.ListComp)):
+            for g in arg.generators:
+                conds += g.ifs
+            key = norm(arg.generators[0].target) if \
+                isinstance(arg.generators[0].target, ast.Name) else None
+        flat = []
+        for c in conds:
+            flat += c.values if isinstance(c, ast.BoolOp) and \
+                isinstance(c.op, ast.And) else [c]
+        has_not_in = any(isinstance(c, ast.Compare) and
+                         isinstance(c.ops[0], ast.NotIn) and
+                         norm(c.comparators[0]) == kw for c in flat)
+        has_us = any("'_'" in norm(c) for c in flat)
+        r.instance(fi.where, b, f'bulk copy: not-in={has_not_in} '
+                   f'underscore={has_us}')
+        if not has_not_in:
+            r.finding(fi.where, b, 'the construction mapping is merged into '
+                      'the keyword defaults without skipping names the '
+                      'keywords already define: the mapping overrides '
+                      'keyword defaults', node=b, ctx=fi)
+        if not has_us:
+            r.finding(fi.where, b, "names starting with '_' are copied from "
+                      'the construction mapping', node=b, ctx=fi)
+    if not stores and not bulk:
         raise AnalysisError('initvars: copy into the keyword dict not found')
     for s in stores:
         key = norm(s.targets[0].slice)
@@ -267,42 +298,47 @@ def rule_call_flag(model):
         r.finding(g.where, f'def getitem(..., {flagname}=...)', 'the '
                   'auto-call flag does not default to off', node=g.node,
                   ctx=g)
-    # every call of the looked-up value is under `if call`
+    # every call of the looked-up value is unreachable when the flag is off
     loopvars = set()
     for n in own_nodes(g.node):
         if isinstance(n, ast.For):
             loopvars |= {x.id for x in ast.walk(n.target)
                          if isinstance(x, ast.Name)}
-    ncalls = 0
-    for n in own_nodes(g.node):
-        if isinstance(n, ast.Call):
-            f = n.func
-            calls_value = (isinstance(f, ast.Name) and f.id in loopvars) or (
-                isinstance(f, ast.Attribute) and
-                f.attr == '__render_with_namespace__')
-            if not calls_value:
-                continue
-            ncalls += 1
-            guarded = False
-            for anc in ancestors(n):
-                if isinstance(anc, ast.If) and isinstance(anc.test, ast.Name)\
-                        and anc.test.id == flagname:
-                    guarded = True
-                if isinstance(anc, ast.FunctionDef):
-                    break
-            r.instance(g.where, n, 'under flag' if guarded else 'UNGUARDED')
-            if not guarded:
-                r.finding(g.where, n, 'the looked-up value is called even '
-                          'when the auto-call flag is off', node=n, ctx=g)
-            # a document template is rendered with the current namespace
-            if isinstance(f, ast.Name) and n.args:
-                if not (len(n.args) == 2 and
-                        isinstance(n.args[0], ast.Constant) and
-                        n.args[0].value is None and
-                        norm(n.args[1]) == 'self'):
-                    r.finding(g.where, n, 'a document template value is not '
-                              'rendered as template(None, namespace)',
-                              node=n, ctx=g)
+    dom = _FlagDomain(flagname, loopvars)
+    Interp(dom).run(g.node, _FS())
+    ncalls = len(dom.sites)
+    for n, ok in dom.sites.values():
+        r.instance(g.where, n, 'only when flag on' if ok else 'UNGUARDED')
+        if not ok:
+            r.finding(g.where, n, 'the looked-up value is called even '
+                      'when the auto-call flag is off', node=n, ctx=g)
+        f = n.func
+        if isinstance(f, ast.Name) and n.args:
+            if not (len(n.args) == 2 and
+                    isinstance(n.args[0], ast.Constant) and
+                    n.args[0].value is None and
+                    norm(n.args[1]) == 'self'):
+                r.finding(g.where, n, 'a document template value is not '
+                          'rendered as template(None, namespace)',
+                          node=n, ctx=g)
+    # the per-source try guards only the subscript lookup
+    for name in ('getitem', '__contains__'):
+        f2 = model.func('_DocumentTemplate', 'TemplateDict.' + name)
+        for t in [n for n in own_nodes(f2.node) if isinstance(n, ast.Try)
+                  and n.handlers]:
+            only_lookup = len(t.body) == 1 and any(
+                isinstance(x, ast.Subscript) for x in ast.walk(t.body[0])) \
+                and not any(isinstance(x, ast.Call)
+                            for x in ast.walk(t.body[0]))
+            r.instance(f2.where, 'try: ' + norm(t.body[0]),
+                       'lookup only' if only_lookup else 'WIDE')
+            if not only_lookup:
+                r.finding(f2.where, 'try: ' + norm(t.body[0]) + ' ...',
+                          'the KeyError/NameError guard of the per-source '
+                          'lookup covers more than the lookup: an error '
+                          'raised by a called value makes the search fall '
+                          'through to a lower-priority source', node=t,
+                          ctx=f2)
     if ncalls < 3:
         raise AnalysisError('TemplateDict.getitem: auto-call sites not '
                             f'found ({ncalls})')
@@ -332,6 +368,59 @@ def rule_call_flag(model):
                                   'when looked up)', node=n, ctx=fi)
     r.require_floor(8)
     return r
+
+
+class _FS(BaseState):
+    __slots__ = ('flag', 'trace', 'cur_exc')
+
+    def __init__(self, flag=None):
+        self.flag = flag
+        self.trace = ()
+        self.cur_exc = None
+
+    def key(self):
+        return self.flag
+
+    def copy(self):
+        n = _FS(self.flag)
+        n.trace = self.trace
+        return n
+
+
+class _FlagDomain(Domain):
+    def __init__(self, flagname, loopvars):
+        self.flagname = flagname
+        self.loopvars = loopvars
+        self.sites = {}
+
+    def branch(self, test, st):
+        if isinstance(test, ast.Name) and test.id == self.flagname:
+            if st.flag is not None:
+                return [(st.flag, st)]
+            return [(True, _FS(True)), (False, _FS(False))]
+        return [(True, st), (False, st)]
+
+    def _scan(self, node, st):
+        for n in ast.walk(node):
+            if isinstance(n, ast.Call):
+                f = n.func
+                if (isinstance(f, ast.Name) and f.id in self.loopvars) or (
+                        isinstance(f, ast.Attribute) and
+                        f.attr == '__render_with_namespace__'):
+                    prev = self.sites.get(id(n), (n, True))
+                    self.sites[id(n)] = (n, prev[1] and st.flag is True)
+
+    def effects(self, stmt, st):
+        self._scan(stmt, st)
+        return st
+
+    def on_return(self, node, st):
+        if node.value is not None:
+            self._scan(node.value, st)
+        return [], st
+
+    def loop_head(self, node, st):
+        return st
 
 
 def rule_direction(model):
